@@ -1,17 +1,1004 @@
-//! Engine `regs` — placeholder (not written yet).
+//! Engine `regs` (C18): every by-name register method of the nine CPU context types
+//! (`CpuContext` impls in minidump/src/context.rs and the `MinidumpContext` dispatch) against the
+//! Lean model `MdModel.Regs`, which interprets the tables translated from the same source — plus
+//! the property's own oracle evaluated on the implementation alone.
+//!
+//! case line:  `regs <CTX> <valid> <op> <op> …`
+//!   CTX    X86 | AMD64 | ARM | ARM64_OLD | ARM64 | PPC | PPC64 | MIPS | SPARC
+//!   valid  `all` | `some:` name tokens separated by `,` (duplicate-free, may be empty)
+//!   name token: `[A-Za-z0-9_]+` verbatim, anything else `%` + hex(utf-8)   (`%` alone = empty name)
+//!   ops (the context starts all-zero; `set` is the only op that changes it):
+//!     set:<n>:<hex> geta:<n> get:<n> mget:<n> mgeta:<n> fmt:<n> mfmt:<n> memo:<n> valid:<n>
+//!     regs vregs mregs mvregs gpr size sp ip spname ipname names dump
+//!   (`m…` = through `MinidumpContext`, the others through `CpuContext`)
+//! answer: the op results joined by `;` (a panic inside one op is `PANIC` for that op).
+
 use crate::common::*;
+use minidump::{CpuContext, MinidumpContext, MinidumpContextValidity, MinidumpRawContext};
+use minidump_common::format as md;
+use scroll::ctx::SizeWith;
+use scroll::{Pread, Pwrite, LE};
+use std::collections::{HashMap, HashSet};
+use std::sync::{Arc, Mutex, OnceLock};
 
 pub struct Regs;
+
+const CTXS: &[&str] = &[
+    "X86", "AMD64", "ARM", "ARM64_OLD", "ARM64", "PPC", "PPC64", "MIPS", "SPARC",
+];
+
+// ------------------------------------------------------------------------------------ names
+
+fn is_plain(s: &str) -> bool {
+    !s.is_empty() && s.bytes().all(|b| b.is_ascii_alphanumeric() || b == b'_')
+}
+fn enc_name(s: &str) -> String {
+    if is_plain(s) {
+        s.to_string()
+    } else if s.is_empty() {
+        "%".to_string()
+    } else {
+        format!("%{}", hex(s.as_bytes()))
+    }
+}
+fn dec_name(t: &str) -> Option<String> {
+    if let Some(h) = t.strip_prefix('%') {
+        if h.is_empty() {
+            return Some(String::new());
+        }
+        if h == "-" {
+            return None;
+        }
+        let b = unhex(h)?;
+        if b.is_empty() {
+            return None;
+        }
+        String::from_utf8(b).ok()
+    } else if is_plain(t) {
+        Some(t.to_string())
+    } else {
+        None
+    }
+}
+
+/// `MinidumpContextValidity::Some` holds `&'static str`: every distinct name is leaked once.
+fn intern(s: &str) -> &'static str {
+    static POOL: OnceLock<Mutex<HashSet<&'static str>>> = OnceLock::new();
+    let mut g = POOL.get_or_init(|| Mutex::new(HashSet::new())).lock().unwrap();
+    if let Some(x) = g.get(s) {
+        return x;
+    }
+    let l: &'static str = Box::leak(s.to_string().into_boxed_str());
+    g.insert(l);
+    l
+}
+
+/// candidate names: short alphanumerics, letter+number forms, every spelling used by any context,
+/// case variants and near misses. Which of them a context accepts is asked of the implementation.
+fn universe() -> &'static Vec<String> {
+    static U: OnceLock<Vec<String>> = OnceLock::new();
+    U.get_or_init(|| {
+        let mut v: Vec<String> = vec![];
+        let alpha: Vec<char> = "abcdefghijklmnopqrstuvwxyz0123456789_".chars().collect();
+        for a in &alpha {
+            v.push(a.to_string());
+            for b in &alpha {
+                v.push(format!("{a}{b}"));
+            }
+        }
+        for a in 'a'..='z' {
+            for n in 10..100 {
+                v.push(format!("{a}{n}"));
+            }
+            for n in 0..10 {
+                v.push(format!("{a}0{n}"));
+            }
+        }
+        for n in 0..48 {
+            v.push(format!("g_r{n}"));
+            v.push(format!("g_r0{n}"));
+            v.push(format!("gr{n}"));
+        }
+        for w in [
+            "eip", "esp", "ebp", "ebx", "esi", "edi", "eax", "ecx", "edx", "eflags", "efl", "rax", "rdx", "rcx", "rbx",
+            "rsi", "rdi", "rbp", "rsp", "rip", "rflags", "srr0", "srr1", "xer", "ctr", "vrsave", "ccr", "npc", "asi",
+            "fprs", "cpsr", "epc", "mdhi", "mdlo", "iregs", "gpr", "g_r", "context_flags", "badvaddr", "status",
+            "cause", "dsp_control", "fpscr", "fpsr", "fpcr", "fir", "fpcsr", "zero", "at", "v0", "v1", "a0", "t0", "t9",
+            "k0", "k1", "s8", "ra", "gp", "ip", "sl", "sb", "wsp", "xzr", "x31", "x32", "r32", "r16", "o8", "g8", "i8",
+            "l8", "o9", "$esp", "$rsp", "$sp", "%rsp", ".cfa", ".ra", "$eip", "", " ", "sp ", " sp", "sp\0", "s p",
+            "pc\n", "SP", "PC", "FP", "LR", "EIP", "RSP", "R11", "X29", "X30", "G_R14", "O6", "Sp", "Pc", "é6", "o٦",
+            "ｓｐ", "spp", "ssp", "usp", "pcc", "lrr", "fpp", "r011", "x029", "x29 ", "g_r14 ", "g_r_14", "g_r", "gr14",
+            "o06", "o-1", "o/", "o8", "g:", "i@", "l`",
+        ] {
+            v.push(w.to_string());
+        }
+        // every string literal of the generated Lean tables, as a CANDIDATE spelling only (whether a
+        // context accepts it is still asked of the implementation): a table name outside the built-in
+        // universe is then probed like any other instead of only showing up in the `names` comparison
+        if let Ok(text) = std::fs::read_to_string("lean/MdModel/Gen/Regs.lean") {
+            for (i, piece) in text.split('"').enumerate() {
+                if i % 2 == 1 && piece.len() <= 24 && !piece.contains('\n') {
+                    v.push(piece.to_string());
+                }
+            }
+        }
+        v.sort();
+        v.dedup();
+        v
+    })
+}
+
+// ------------------------------------------------------------------------------ context types
+
+/// What the engine needs from a raw context type beyond `CpuContext`.
+trait Raw: CpuContext + Clone + Sized {
+    const NAME: &'static str;
+    fn zero() -> Self;
+    fn wrap(self) -> MinidumpRawContext;
+    fn bytes(&self) -> Vec<u8>;
+    /// register-bearing fields in struct order: (cell text, value)
+    fn cells(&self) -> Vec<(String, u64)>;
+    fn to_u64(r: Self::Register) -> u64;
+    fn from_u64(v: u64) -> Option<Self::Register>;
+    fn reg_bytes() -> usize {
+        std::mem::size_of::<Self::Register>()
+    }
+}
+
+macro_rules! scalar_cells {
+    ($s:expr, $out:expr, $($f:ident),*) => { $( $out.push((stringify!($f).to_string(), $s.$f as u64)); )* };
+}
+macro_rules! array_cells {
+    ($s:expr, $out:expr, $f:ident) => {
+        for (i, v) in $s.$f.iter().enumerate() {
+            $out.push((format!("{}[{}]", stringify!($f), i), *v as u64));
+        }
+    };
+}
+
+macro_rules! raw_impl {
+    ($ty:ty, $name:expr, $variant:ident, $reg:ty, |$s:ident, $out:ident| $cells:block) => {
+        impl Raw for $ty {
+            const NAME: &'static str = $name;
+            fn zero() -> Self {
+                let n = <$ty>::size_with(&LE);
+                let buf = vec![0u8; n];
+                buf.pread_with::<$ty>(0, LE).expect("zero context")
+            }
+            fn wrap(self) -> MinidumpRawContext {
+                MinidumpRawContext::$variant(self)
+            }
+            fn bytes(&self) -> Vec<u8> {
+                let n = <$ty>::size_with(&LE);
+                let mut buf = vec![0u8; n];
+                buf.pwrite_with(self.clone(), 0, LE).expect("serialise context");
+                buf
+            }
+            fn cells(&self) -> Vec<(String, u64)> {
+                let $s = self;
+                let mut $out: Vec<(String, u64)> = vec![];
+                $cells
+                $out
+            }
+            fn to_u64(r: $reg) -> u64 {
+                r as u64
+            }
+            fn from_u64(v: u64) -> Option<$reg> {
+                <$reg>::try_from(v).ok()
+            }
+        }
+    };
+}
+
+raw_impl!(md::CONTEXT_X86, "X86", X86, u32, |s, out| {
+    scalar_cells!(s, out, edi, esi, ebx, edx, ecx, eax, ebp, eip, eflags, esp);
+});
+raw_impl!(md::CONTEXT_AMD64, "AMD64", Amd64, u64, |s, out| {
+    scalar_cells!(s, out, rax, rcx, rdx, rbx, rsp, rbp, rsi, rdi, r8, r9, r10, r11, r12, r13, r14, r15, rip);
+});
+raw_impl!(md::CONTEXT_ARM, "ARM", Arm, u32, |s, out| {
+    array_cells!(s, out, iregs);
+});
+raw_impl!(md::CONTEXT_ARM64_OLD, "ARM64_OLD", OldArm64, u64, |s, out| {
+    array_cells!(s, out, iregs);
+    scalar_cells!(s, out, sp, pc);
+});
+raw_impl!(md::CONTEXT_ARM64, "ARM64", Arm64, u64, |s, out| {
+    array_cells!(s, out, iregs);
+    scalar_cells!(s, out, sp, pc);
+});
+raw_impl!(md::CONTEXT_PPC, "PPC", Ppc, u32, |s, out| {
+    scalar_cells!(s, out, srr0, srr1);
+    array_cells!(s, out, gpr);
+    scalar_cells!(s, out, cr, xer, lr, ctr, mq, vrsave);
+});
+raw_impl!(md::CONTEXT_PPC64, "PPC64", Ppc64, u64, |s, out| {
+    scalar_cells!(s, out, srr0, srr1);
+    array_cells!(s, out, gpr);
+    scalar_cells!(s, out, cr, xer, lr, ctr, vrsave);
+});
+raw_impl!(md::CONTEXT_MIPS, "MIPS", Mips, u64, |s, out| {
+    array_cells!(s, out, iregs);
+    scalar_cells!(s, out, epc);
+});
+raw_impl!(md::CONTEXT_SPARC, "SPARC", Sparc, u64, |s, out| {
+    array_cells!(s, out, g_r);
+    scalar_cells!(s, out, ccr, pc, npc, y, asi, fprs);
+});
+
+macro_rules! dispatch {
+    ($ctx:expr, $f:ident ( $($a:expr),* )) => {
+        match $ctx {
+            "X86" => Some($f::<md::CONTEXT_X86>($($a),*)),
+            "AMD64" => Some($f::<md::CONTEXT_AMD64>($($a),*)),
+            "ARM" => Some($f::<md::CONTEXT_ARM>($($a),*)),
+            "ARM64_OLD" => Some($f::<md::CONTEXT_ARM64_OLD>($($a),*)),
+            "ARM64" => Some($f::<md::CONTEXT_ARM64>($($a),*)),
+            "PPC" => Some($f::<md::CONTEXT_PPC>($($a),*)),
+            "PPC64" => Some($f::<md::CONTEXT_PPC64>($($a),*)),
+            "MIPS" => Some($f::<md::CONTEXT_MIPS>($($a),*)),
+            "SPARC" => Some($f::<md::CONTEXT_SPARC>($($a),*)),
+            _ => None,
+        }
+    };
+}
+
+/// What the IMPLEMENTATION says about names (asked once per context type over the universe).
+struct NameInfo {
+    /// names accepted by any of REGISTERS / set_register / memoize_register, sorted
+    accepted: Vec<String>,
+    /// accepted name -> canonical name (`memoize_register`), None when memoize does not know it
+    canon: HashMap<String, Option<&'static str>>,
+    registers: Vec<&'static str>,
+}
+
+fn name_info<T: Raw>() -> Arc<NameInfo> {
+    static CACHE: OnceLock<Mutex<HashMap<&'static str, Arc<NameInfo>>>> = OnceLock::new();
+    let cache = CACHE.get_or_init(|| Mutex::new(HashMap::new()));
+    if let Some(x) = cache.lock().unwrap().get(T::NAME) {
+        return x.clone();
+    }
+    let zero = T::zero();
+    let mut accepted = vec![];
+    let mut canon = HashMap::new();
+    for n in universe() {
+        let one = T::from_u64(1).unwrap();
+        let memo = catch(|| zero.memoize_register(n)).unwrap_or(None);
+        let set = catch(|| zero.clone().set_register(n, one).is_some()).unwrap_or(true);
+        let inreg = T::REGISTERS.contains(&n.as_str());
+        if memo.is_some() || set || inreg {
+            accepted.push(n.clone());
+            canon.insert(n.clone(), memo);
+        }
+    }
+    for r in T::REGISTERS {
+        if !canon.contains_key(*r) {
+            accepted.push(r.to_string());
+            canon.insert(r.to_string(), catch(|| zero.memoize_register(r)).unwrap_or(None));
+        }
+    }
+    accepted.sort();
+    let info = Arc::new(NameInfo { accepted, canon, registers: T::REGISTERS.to_vec() });
+    cache.lock().unwrap().insert(T::NAME, info.clone());
+    info
+}
+
+// ------------------------------------------------------------------------------------- cases
+
+#[derive(Clone)]
+struct Case {
+    ctx: String,
+    /// None = All
+    valid: Option<Vec<String>>,
+    ops: Vec<String>,
+}
+
+fn parse_case(case: &str) -> Option<Case> {
+    let f: Vec<&str> = case.split(' ').filter(|s| !s.is_empty()).collect();
+    if f.len() < 4 || f[0] != "regs" || !CTXS.contains(&f[1]) {
+        return None;
+    }
+    let valid = if f[2] == "all" {
+        None
+    } else {
+        let rest = f[2].strip_prefix("some:")?;
+        let mut names = vec![];
+        for t in rest.split(',').filter(|t| !t.is_empty()) {
+            let n = dec_name(t)?;
+            if names.contains(&n) {
+                return None;
+            }
+            names.push(n);
+        }
+        Some(names)
+    };
+    Some(Case { ctx: f[1].to_string(), valid, ops: f[3..].iter().map(|s| s.to_string()).collect() })
+}
+
+fn render_case(c: &Case) -> String {
+    let v = match &c.valid {
+        None => "all".to_string(),
+        Some(s) => format!("some:{}", s.iter().map(|n| enc_name(n)).collect::<Vec<_>>().join(",")),
+    };
+    format!("regs {} {} {}", c.ctx, v, c.ops.join(" "))
+}
+
+fn hexv(v: u64) -> String {
+    format!("{v:x}")
+}
+fn show_pairs(ps: &[(String, u64)]) -> String {
+    if ps.is_empty() {
+        "-".into()
+    } else {
+        ps.iter().map(|(n, v)| format!("{}={:x}", enc_name(n), v)).collect::<Vec<_>>().join(",")
+    }
+}
+
+/// the oracle's reading of "valid, also through aliases": some element of the set denotes the
+/// same register (same canonical name according to the implementation's `memoize_register`)
+fn oracle_valid(info: &NameInfo, n: &str, valid: &Option<Vec<String>>) -> Option<bool> {
+    let cn = info.canon.get(n)?.as_ref()?;
+    match valid {
+        None => Some(true),
+        Some(s) => {
+            let mut any = false;
+            for e in s {
+                match info.canon.get(e.as_str()) {
+                    Some(Some(ce)) => any |= ce == cn,
+                    _ => return None, // a foreign name in the set: outside the property's quantifier
+                }
+            }
+            Some(any)
+        }
+    }
+}
+
+/// class of a "should be valid but is not" failure: which kind of set element was overlooked.
+///   validity-not-honoured:<CTX>            the set holds the queried name itself
+///   validity-missed-canonical-in-set:<CTX> the set holds the canonical (REGISTERS) name of the register
+///   validity-missed-alias-in-set:<CTX>     the set only holds another alias of the register
+fn missed_class(info: &NameInfo, ctx: &str, n: &str, valid: &Option<Vec<String>>) -> String {
+    let s = valid.as_ref().map(|v| v.as_slice()).unwrap_or(&[]);
+    let canon = info.canon.get(n).cloned().flatten();
+    if s.iter().any(|e| e == n) {
+        format!("validity-not-honoured:{ctx}")
+    } else if canon.map_or(false, |c| s.iter().any(|e| e == c)) {
+        format!("validity-missed-canonical-in-set:{ctx}")
+    } else {
+        format!("validity-missed-alias-in-set:{ctx}")
+    }
+}
+
+fn run<T: Raw>(case: &Case) -> ImplResult {
+    let mut res = ImplResult::default();
+    let info = name_info::<T>();
+    let mut raw = T::zero();
+    let validity = match &case.valid {
+        None => MinidumpContextValidity::All,
+        Some(s) => MinidumpContextValidity::Some(s.iter().map(|n| intern(n)).collect()),
+    };
+    let set_is_known = case.valid.as_ref().map_or(true, |s| s.iter().all(|n| matches!(info.canon.get(n.as_str()), Some(Some(_)))));
+    res.tags.push(format!("ctx:{}", T::NAME));
+    res.tags.push(match &case.valid {
+        None => "valid:all".to_string(),
+        Some(s) if s.is_empty() => "valid:empty".to_string(),
+        Some(s) if s.len() == 1 => {
+            if info.registers.contains(&s[0].as_str()) { "valid:singleton-name".to_string() } else { "valid:singleton-alias-or-other".to_string() }
+        }
+        Some(_) => "valid:many".to_string(),
+    });
+    let is_accepted = |n: &str| info.canon.contains_key(n);
+    let mut outs: Vec<String> = vec![];
+    let mut touched_known = false;
+    let mut wrote = false;
+    let mut read_after_write = false;
+    macro_rules! fail {
+        ($class:expr, $($arg:tt)*) => { res.oracle.push(($class.to_string(), format!($($arg)*))) };
+    }
+    let mdctx = |raw: &T| MinidumpContext { raw: raw.clone().wrap(), valid: validity.clone() };
+    for op in &case.ops {
+        let parts: Vec<&str> = op.split(':').collect();
+        let kind = parts[0];
+        res.tags.push(format!("op:{kind}"));
+        let name = if parts.len() >= 2 {
+            match dec_name(parts[1]) {
+                Some(n) => Some(n),
+                None => {
+                    res.out = "bad-op".into();
+                    res.oracle.clear();
+                    return res;
+                }
+            }
+        } else {
+            None
+        };
+        if let Some(n) = &name {
+            if is_accepted(n) {
+                touched_known = true;
+                if !info.registers.contains(&n.as_str()) {
+                    res.tags.push("name:alias".into());
+                }
+            } else {
+                res.tags.push("name:unknown".into());
+            }
+        }
+        let out: String = match (kind, parts.len()) {
+            ("set", 3) => {
+                let n = name.clone().unwrap();
+                let Some(vv) = u64::from_str_radix(parts[2], 16).ok().filter(|x| T::from_u64(*x).is_some()) else {
+                    res.out = "bad-op".into();
+                    res.oracle.clear();
+                    return res;
+                };
+                let v = T::from_u64(vv).unwrap();
+                let before_bytes = raw.bytes();
+                let before: Vec<(String, Result<u64, String>)> = info
+                    .accepted
+                    .iter()
+                    .filter(|m| info.canon[m.as_str()].is_some())
+                    .map(|m| (m.clone(), catch(|| T::to_u64(raw.get_register_always(m)))))
+                    .collect();
+                match catch(|| raw.set_register(&n, v)) {
+                    Err(msg) => {
+                        fail!("set-panics", "set_register({n:?}) panicked: {msg}");
+                        "PANIC".into()
+                    }
+                    Ok(None) => {
+                        if info.canon.get(n.as_str()).map_or(false, |c| c.is_some()) {
+                            fail!("named-register-not-settable", "memoize_register knows {n:?} but set_register returns None");
+                        }
+                        if raw.bytes() != before_bytes {
+                            fail!("rejected-set-changes-state", "set_register({n:?}) returned None but changed the context");
+                        }
+                        "none".into()
+                    }
+                    Ok(Some(())) => {
+                        let cn = info.canon.get(n.as_str()).cloned().flatten();
+                        if cn.is_none() {
+                            fail!("set-accepts-unnamed", "set_register({n:?}) succeeds but memoize_register({n:?}) is None: the value cannot be read back through get_register");
+                        }
+                        match catch(|| T::to_u64(raw.get_register_always(&n))) {
+                            Ok(got) if got == vv => {}
+                            Ok(got) => fail!("set-get-mismatch", "set {n}={vv:x}, get_register_always({n}) = {got:x}"),
+                            Err(msg) => fail!("set-get-mismatch", "set {n}={vv:x}, get_register_always({n}) panicked: {msg}"),
+                        }
+                        if cn.is_some() {
+                            match catch(|| raw.get_register(&n, &MinidumpContextValidity::All).map(T::to_u64)) {
+                                Ok(Some(got)) if got == vv => {}
+                                other => fail!("set-get-mismatch", "set {n}={vv:x}, get_register({n}, All) = {other:?}"),
+                            }
+                        }
+                        for (m, old) in &before {
+                            let now = catch(|| T::to_u64(raw.get_register_always(m)));
+                            let same_reg = cn.is_some() && info.canon[m.as_str()] == cn;
+                            if same_reg {
+                                if now != Ok(vv) {
+                                    fail!("alias-differs", "after set {n}={vv:x}: alias {m} reads {now:?}");
+                                }
+                            } else if &now != old {
+                                fail!("set-clobbers-other", "after set {n}={vv:x}: {m} changed from {old:?} to {now:?}");
+                            }
+                        }
+                        let after_bytes = raw.bytes();
+                        let diff: Vec<usize> = (0..after_bytes.len()).filter(|&i| after_bytes[i] != before_bytes[i]).collect();
+                        if let (Some(lo), Some(hi)) = (diff.first(), diff.last()) {
+                            if hi - lo >= T::reg_bytes() {
+                                fail!("set-touches-foreign-bytes", "set {n}: serialised context differs at bytes {lo}..={hi}, wider than one register");
+                            }
+                        }
+                        wrote = true;
+                        "ok".into()
+                    }
+                }
+            }
+            ("geta", 2) | ("mgeta", 2) => {
+                let n = name.clone().unwrap();
+                let r = if kind == "geta" {
+                    catch(|| T::to_u64(raw.get_register_always(&n)))
+                } else {
+                    let c = mdctx(&raw);
+                    catch(|| c.get_register_always(&n))
+                };
+                match r {
+                    Ok(v) => hexv(v),
+                    Err(msg) => {
+                        if info.canon.get(n.as_str()).map_or(false, |c| c.is_some()) {
+                            fail!("named-register-unreadable", "{kind}({n:?}) panicked although memoize_register accepts the name: {msg}");
+                        }
+                        "PANIC".into()
+                    }
+                }
+            }
+            ("get", 2) | ("mget", 2) => {
+                let n = name.clone().unwrap();
+                let r = if kind == "get" {
+                    catch(|| raw.get_register(&n, &validity).map(T::to_u64))
+                } else {
+                    let c = mdctx(&raw);
+                    catch(|| c.get_register(&n))
+                };
+                match &r {
+                    Err(msg) => {
+                        // a foreign name inside the validity set is outside the property's quantifier
+                        if set_is_known {
+                            fail!(if is_accepted(&n) { "get-panics" } else { "unknown-name-panics" }, "{kind}({n:?}) panicked: {msg}");
+                        }
+                    }
+                    Ok(got) => {
+                        if !is_accepted(&n) {
+                            if got.is_some() && set_is_known {
+                                fail!("unknown-name-present", "{kind}({n:?}) = {got:?} for a name no table knows");
+                            }
+                        } else if let Some(want) = oracle_valid(&info, &n, &case.valid) {
+                            let always = catch(|| T::to_u64(raw.get_register_always(&n))).ok();
+                            match (want, got) {
+                                (true, Some(v)) if Some(*v) == always => {}
+                                (true, Some(v)) => fail!("get-differs-from-always", "{kind}({n}) = {v:x}, get_register_always = {always:?}"),
+                                (false, None) => {}
+                                (true, None) => {
+                                    fail!(missed_class(&info, T::NAME, &n, &case.valid),
+                                        "{kind}({n}) = None although the validity set {:?} names the same register", case.valid.as_ref().unwrap());
+                                }
+                                (false, Some(v)) => fail!(format!("validity-not-honoured:{}", T::NAME), "{kind}({n}) = {v:x} although no element of {:?} names that register", case.valid.as_ref().unwrap()),
+                            }
+                        }
+                    }
+                }
+                match r {
+                    Ok(Some(v)) => hexv(v),
+                    Ok(None) => "none".into(),
+                    Err(_) => "PANIC".into(),
+                }
+            }
+            ("fmt", 2) | ("mfmt", 2) => {
+                let n = name.clone().unwrap();
+                let r = if kind == "fmt" {
+                    catch(|| raw.format_register(&n))
+                } else {
+                    let c = mdctx(&raw);
+                    catch(|| c.format_register(&n))
+                };
+                match r {
+                    Ok(s) => {
+                        if let Ok(v) = catch(|| T::to_u64(raw.get_register_always(&n))) {
+                            let want = format!("0x{:0w$x}", v, w = T::reg_bytes() * 2);
+                            if s != want {
+                                fail!("format-differs", "{kind}({n}) = {s:?}, value {v:x} at natural width is {want:?}");
+                            }
+                        }
+                        s
+                    }
+                    Err(_) => "PANIC".into(),
+                }
+            }
+            ("memo", 2) => {
+                let n = name.clone().unwrap();
+                match catch(|| raw.memoize_register(&n)) {
+                    Ok(Some(c)) => {
+                        if !info.registers.contains(&c) {
+                            fail!("memoize-not-canonical", "memoize_register({n:?}) = {c:?} is not in REGISTERS");
+                        }
+                        enc_name(c)
+                    }
+                    Ok(None) => "none".into(),
+                    Err(msg) => {
+                        fail!("unknown-name-panics", "memoize_register({n:?}) panicked: {msg}");
+                        "PANIC".into()
+                    }
+                }
+            }
+            ("valid", 2) => {
+                let n = name.clone().unwrap();
+                match catch(|| raw.register_is_valid(&n, &validity)) {
+                    Ok(b) => {
+                        if is_accepted(&n) {
+                            if let Some(want) = oracle_valid(&info, &n, &case.valid) {
+                                if want && !b {
+                                    fail!(missed_class(&info, T::NAME, &n, &case.valid),
+                                        "register_is_valid({n}) = false although the validity set {:?} names the same register", case.valid);
+                                } else if !want && b {
+                                    fail!(format!("validity-not-honoured:{}", T::NAME), "register_is_valid({n}) = true although no element of {:?} names that register", case.valid);
+                                }
+                            }
+                        } else if b && set_is_known {
+                            fail!("unknown-name-present", "register_is_valid({n:?}) = true for a name no table knows");
+                        }
+                        if b { "1".into() } else { "0".into() }
+                    }
+                    Err(msg) => {
+                        fail!("unknown-name-panics", "register_is_valid({n:?}) panicked: {msg}");
+                        "PANIC".into()
+                    }
+                }
+            }
+            ("regs", 1) | ("vregs", 1) | ("mregs", 1) | ("mvregs", 1) => {
+                let r: Result<Vec<(String, u64)>, String> = match kind {
+                    "regs" => catch(|| raw.registers().map(|(n, v)| (n.to_string(), T::to_u64(v))).collect()),
+                    "vregs" => catch(|| raw.valid_registers(&validity).map(|(n, v)| (n.to_string(), T::to_u64(v))).collect()),
+                    "mregs" => {
+                        let c = mdctx(&raw);
+                        catch(|| c.registers().map(|(n, v)| (n.to_string(), v)).collect())
+                    }
+                    _ => {
+                        let c = mdctx(&raw);
+                        catch(|| c.valid_registers().map(|(n, v)| (n.to_string(), v)).collect())
+                    }
+                };
+                match r {
+                    Err(msg) => {
+                        if set_is_known {
+                            fail!("enumeration-panics", "{kind} panicked: {msg}");
+                        }
+                        "PANIC".into()
+                    }
+                    Ok(mut ps) => {
+                        // hash-set iteration order is arbitrary: present in the order of the case's set
+                        if kind == "vregs" {
+                            if let Some(s) = &case.valid {
+                                ps.sort_by_key(|(n, _)| s.iter().position(|x| x == n).unwrap_or(usize::MAX));
+                            }
+                        }
+                        // the enumerations list exactly the named general-purpose registers (that are valid)
+                        let want: Option<Vec<String>> = match (kind, &case.valid) {
+                            ("regs", _) | ("mregs", _) | (_, None) => Some(info.registers.iter().map(|s| s.to_string()).collect()),
+                            ("vregs", Some(s)) => Some(s.clone()),
+                            (_, Some(_)) => {
+                                if set_is_known {
+                                    Some(info.registers.iter().filter(|r| oracle_valid(&info, r, &case.valid) == Some(true)).map(|s| s.to_string()).collect())
+                                } else {
+                                    None
+                                }
+                            }
+                        };
+                        if let Some(want) = want {
+                            let got: Vec<String> = ps.iter().map(|(n, _)| n.clone()).collect();
+                            if got != want {
+                                let missed: Option<&String> = if kind == "mvregs" && got.iter().all(|g| want.contains(g)) { want.iter().find(|w| !got.contains(w)) } else { None };
+                                fail!(match missed { Some(w) => missed_class(&info, T::NAME, w, &case.valid), None => "enumeration-differs".to_string() },
+                                    "{kind} lists {got:?}, expected exactly {want:?} (validity {:?})", case.valid);
+                            }
+                        }
+                        for (n, v) in &ps {
+                            if catch(|| T::to_u64(raw.get_register_always(n))) != Ok(*v) {
+                                fail!("enumeration-value-differs", "{kind} yields {n}={v:x}, get_register_always differs");
+                            }
+                        }
+                        show_pairs(&ps)
+                    }
+                }
+            }
+            ("gpr", 1) => {
+                let c = mdctx(&raw);
+                let g = c.general_purpose_registers();
+                if g != T::REGISTERS {
+                    fail!("enumeration-differs", "general_purpose_registers() differs from {}::REGISTERS", T::NAME);
+                }
+                g.iter().map(|n| enc_name(n)).collect::<Vec<_>>().join(",")
+            }
+            ("size", 1) => {
+                let c = mdctx(&raw);
+                let s = c.register_size();
+                if s != T::reg_bytes() {
+                    fail!("register-size-differs", "register_size() = {s}, size_of::<Register>() = {}", T::reg_bytes());
+                }
+                s.to_string()
+            }
+            ("sp", 1) | ("ip", 1) => {
+                let c = mdctx(&raw);
+                let (acc, nm) = if kind == "sp" {
+                    (c.get_stack_pointer(), raw.stack_pointer_register_name())
+                } else {
+                    (c.get_instruction_pointer(), raw.instruction_pointer_register_name())
+                };
+                let by_name = catch(|| T::to_u64(raw.get_register_always(nm)));
+                if by_name != Ok(acc) {
+                    fail!("sp-ip-disagree", "{kind}: accessor = {acc:x}, get_register_always({nm}) = {by_name:?}");
+                }
+                let all = MinidumpContext { raw: raw.clone().wrap(), valid: MinidumpContextValidity::All };
+                let by_md = catch(|| all.get_register(nm));
+                if by_md != Ok(Some(acc)) {
+                    fail!("sp-ip-disagree", "{kind}: accessor = {acc:x}, MinidumpContext::get_register({nm}) = {by_md:?}");
+                }
+                hexv(acc)
+            }
+            ("spname", 1) => enc_name(raw.stack_pointer_register_name()),
+            ("ipname", 1) => enc_name(raw.instruction_pointer_register_name()),
+            ("names", 1) => {
+                // REGISTERS: duplicate-free, each its own canonical name
+                let mut seen = HashSet::new();
+                for r in &info.registers {
+                    if !seen.insert(*r) {
+                        fail!("registers-duplicate", "REGISTERS lists {r} twice");
+                    }
+                    if info.canon.get(*r).cloned().flatten() != Some(*r) {
+                        fail!("memoize-not-canonical", "memoize_register({r}) = {:?} for a REGISTERS name", info.canon.get(*r));
+                    }
+                }
+                info.accepted.iter().map(|n| enc_name(n)).collect::<Vec<_>>().join(",")
+            }
+            ("dump", 1) => {
+                let nz: Vec<(String, u64)> = raw.cells().into_iter().filter(|(_, v)| *v != 0).collect();
+                if nz.is_empty() {
+                    "-".into()
+                } else {
+                    nz.iter().map(|(c, v)| format!("{c}={v:x}")).collect::<Vec<_>>().join(",")
+                }
+            }
+            _ => {
+                res.out = "bad-op".into();
+                res.oracle.clear();
+                return res;
+            }
+        };
+        if wrote && kind != "set" && (kind == "dump" || kind == "regs" || kind == "mregs" || kind == "vregs" || kind == "mvregs" || name.as_ref().map_or(false, |n| is_accepted(n))) {
+            read_after_write = true;
+        }
+        outs.push(out);
+    }
+    // non-trivial: a named register was written and then observed, or a validity set was consulted
+    // for a name the context accepts, or the tables were enumerated
+    res.nontrivial = read_after_write
+        || (touched_known && case.valid.is_some())
+        || case.ops.iter().any(|o| matches!(o.as_str(), "names" | "regs" | "mregs" | "vregs" | "mvregs"));
+    res.out = outs.join(";");
+    res
+}
+
+// -------------------------------------------------------------------------------- generation
+
+struct GenInfo {
+    accepted: Vec<String>,
+    registers: Vec<String>,
+    unknown: Vec<String>,
+    bits: u32,
+}
+fn gen_info<T: Raw>() -> GenInfo {
+    let i = name_info::<T>();
+    GenInfo {
+        accepted: i.accepted.clone(),
+        registers: i.registers.iter().map(|s| s.to_string()).collect(),
+        unknown: universe().iter().filter(|n| !i.canon.contains_key(n.as_str())).cloned().collect(),
+        bits: (T::reg_bytes() * 8) as u32,
+    }
+}
+
+fn mask(bits: u32, v: u64) -> u64 {
+    if bits >= 64 { v } else { v & ((1u64 << bits) - 1) }
+}
+
+/// `set` ops giving every REGISTERS name a distinct non-zero value
+fn background(g: &GenInfo, salt: u64) -> Vec<String> {
+    g.registers
+        .iter()
+        .enumerate()
+        .map(|(i, r)| format!("set:{}:{:x}", enc_name(r), mask(g.bits, (0x0101_0101_0101_0101u64.wrapping_mul(i as u64 + 1)) ^ (salt << 8) | 1)))
+        .collect()
+}
+
+fn random_name(rng: &mut Rng) -> String {
+    match rng.below(6) {
+        0 => {
+            let n = rng.range(1, 40);
+            (0..n).map(|_| (b'a' + rng.below(26) as u8) as char).collect()
+        }
+        1 => {
+            let pool = ['é', 'ß', '٦', 'ｓ', '𝔯', '\u{0}', ' ', '\t', '"', '\\', '$', '.', '%', ':', ',', ';', '=', 'g', 'o', '6', '7'];
+            let n = rng.range(1, 4);
+            (0..n).map(|_| *rng.pick(&pool)).collect()
+        }
+        2 => format!("{}{}", *rng.pick(&["r", "x", "g", "o", "l", "i", "s", "g_r", "e", "R", "X"]), rng.below(300)),
+        3 => {
+            // two-byte strings around the SPARC alias shape
+            let a = *rng.pick(&[b'g', b'o', b'l', b'i', b'h', b'f', b'G', b'O']);
+            let b = *rng.pick(&[b'/', b'0', b'7', b'8', b'9', b':', b'a']);
+            String::from_utf8(vec![a, b]).unwrap()
+        }
+        4 => {
+            let base = rng.pick(universe()).clone();
+            match rng.below(3) {
+                0 => base.to_uppercase(),
+                1 => format!("{base} "),
+                _ => format!("{base}{}", rng.below(10)),
+            }
+        }
+        _ => "x".repeat(rng.range(100, 2000) as usize),
+    }
+}
 
 impl Engine for Regs {
     fn name(&self) -> &'static str {
         "regs"
     }
     fn rule(&self) -> String {
-        "not implemented".into()
+        "case = (context type, validity All|Some(S), op script on an initially zero context). Exhaustive part: for each of the 9 context types, every name the implementation accepts (REGISTERS + every alias found by probing a ~5000-name universe with set_register/memoize_register) x values {0,1,all-ones,random} for set-then-read-everything (all accepted names, dump of the register cells, sp/ip accessors, registers()/format), and x validity patterns {empty, every singleton by name and by alias, REGISTERS, all accepted names} for register_is_valid/get_register/MinidumpContext::get_register of every accepted name plus valid_registers at both levels; every universe name the context does not accept under {All, Some(empty), Some(REGISTERS)} on all Option-returning methods. Random part: random scripts, random subsets incl. aliases, random unknown names (unicode, NUL, long, near-miss). non-trivial = a named register is written and then observed, or a Some(S) validity set is consulted for an accepted name, or an enumeration is listed; distinct = distinct case line".into()
     }
-    fn generate(&self, _tier: Tier, _rng: &mut Rng, _emit: &mut dyn FnMut(String)) {}
-    fn exec(&self, _case: &str) -> ImplResult {
-        ImplResult::default()
+    fn exhaustive_part(&self) -> Option<String> {
+        Some("9 context types x all accepted names/aliases x {0,1,all-ones,random} (set/get/alias/other-cells-unchanged) and x validity {empty, each singleton by name and by alias, full} (validity through aliases, enumerations); all ~5000 universe names not accepted, per context, on memoize/set/register_is_valid/get_register under All, Some(empty), Some(full)".into())
+    }
+
+    fn generate(&self, tier: Tier, rng: &mut Rng, emit: &mut dyn FnMut(String)) {
+        for ctx in CTXS {
+            let g: GenInfo = dispatch!(*ctx, gen_info()).unwrap();
+            let tok = |n: &String| enc_name(n);
+            // (1) tables
+            emit(format!("regs {ctx} all names gpr size spname ipname sp ip regs mregs vregs mvregs dump"));
+            // (2) set-then-read-everything
+            for n in &g.accepted {
+                let vals = [0u64, 1, mask(g.bits, u64::MAX), mask(g.bits, rng.next())];
+                for (k, v) in vals.iter().enumerate() {
+                    let mut ops = background(&g, k as u64);
+                    ops.push(format!("set:{}:{:x}", tok(n), v));
+                    for m in &g.accepted {
+                        ops.push(format!("geta:{}", tok(m)));
+                    }
+                    ops.push(format!("get:{}", tok(n)));
+                    ops.push(format!("mget:{}", tok(n)));
+                    ops.push(format!("mgeta:{}", tok(n)));
+                    ops.push(format!("fmt:{}", tok(n)));
+                    ops.push(format!("mfmt:{}", tok(n)));
+                    ops.extend(["dump", "sp", "ip", "regs", "mregs"].iter().map(|s| s.to_string()));
+                    emit(format!("regs {ctx} all {}", ops.join(" ")));
+                }
+            }
+            // (3) validity patterns
+            let mut patterns: Vec<Vec<String>> = vec![vec![], g.registers.clone(), g.accepted.clone()];
+            for n in &g.accepted {
+                patterns.push(vec![n.clone()]);
+            }
+            let extra = if tier == Tier::Quick { 40 } else { 600 };
+            for _ in 0..extra {
+                let k = rng.range(2, 6) as usize;
+                let mut s: Vec<String> = vec![];
+                for _ in 0..k {
+                    let n = rng.pick(&g.accepted).clone();
+                    if !s.contains(&n) {
+                        s.push(n);
+                    }
+                }
+                patterns.push(s);
+            }
+            for (pi, s) in patterns.iter().enumerate() {
+                let mut ops = background(&g, 7);
+                for m in &g.accepted {
+                    ops.push(format!("valid:{}", tok(m)));
+                    ops.push(format!("get:{}", tok(m)));
+                    ops.push(format!("mget:{}", tok(m)));
+                }
+                for j in 0..3 {
+                    let u = &g.unknown[(pi * 3 + j) * 7919 % g.unknown.len()];
+                    ops.push(format!("valid:{}", tok(u)));
+                    ops.push(format!("get:{}", tok(u)));
+                    ops.push(format!("mget:{}", tok(u)));
+                }
+                ops.extend(["vregs", "mvregs", "regs", "mregs"].iter().map(|s| s.to_string()));
+                emit(format!(
+                    "regs {ctx} some:{} {}",
+                    s.iter().map(tok).collect::<Vec<_>>().join(","),
+                    ops.join(" ")
+                ));
+            }
+            // (4) every universe name the context does not accept
+            let full = format!("some:{}", g.registers.iter().map(tok).collect::<Vec<_>>().join(","));
+            for chunk in g.unknown.chunks(12) {
+                let mut ops: Vec<String> = vec![format!("set:{}:5", tok(&g.registers[0]))];
+                for u in chunk {
+                    for k in ["memo", "valid", "get", "mget"] {
+                        ops.push(format!("{k}:{}", tok(u)));
+                    }
+                    ops.push(format!("set:{}:3", tok(u)));
+                }
+                ops.push("dump".into());
+                for v in ["all", "some:", full.as_str()] {
+                    emit(format!("regs {ctx} {v} {}", ops.join(" ")));
+                }
+            }
+        }
+        // (5) random scripts and random (mostly unknown) names
+        let n = if tier == Tier::Quick { 3000 } else { 60000 };
+        let infos: Vec<GenInfo> = CTXS.iter().map(|c| dispatch!(*c, gen_info()).unwrap()).collect();
+        for _ in 0..n {
+            let ci = rng.below(CTXS.len() as u64) as usize;
+            let g = &infos[ci];
+            let pick_name = |rng: &mut Rng| -> String {
+                match rng.below(10) {
+                    0..=5 => rng.pick(&g.accepted).clone(),
+                    6 => rng.pick(&g.unknown).clone(),
+                    7 => rng.pick(universe()).clone(),
+                    _ => random_name(rng),
+                }
+            };
+            let valid = match rng.below(4) {
+                0 => "all".to_string(),
+                _ => {
+                    let k = rng.below(5) as usize;
+                    let mut s: Vec<String> = vec![];
+                    for _ in 0..k {
+                        let n = rng.pick(&g.accepted).clone();
+                        if !s.contains(&n) {
+                            s.push(n);
+                        }
+                    }
+                    format!("some:{}", s.iter().map(|n| enc_name(n)).collect::<Vec<_>>().join(","))
+                }
+            };
+            let mut ops: Vec<String> = vec![];
+            for _ in 0..rng.range(1, 14) {
+                let nm = pick_name(rng);
+                let known = g.accepted.contains(&nm);
+                let t = enc_name(&nm);
+                let op = match rng.below(14) {
+                    0..=3 => format!("set:{t}:{:x}", match rng.below(4) { 0 => 0, 1 => 1, 2 => mask(g.bits, u64::MAX), _ => mask(g.bits, rng.next()) }),
+                    4 => format!("get:{t}"),
+                    5 => format!("mget:{t}"),
+                    6 => format!("memo:{t}"),
+                    7 => format!("valid:{t}"),
+                    // get_register_always / format_register: only on names the context accepts (DESIGN §6.0)
+                    8 if known => format!("geta:{t}"),
+                    9 if known => format!("mfmt:{t}"),
+                    10 if known => format!("fmt:{t}"),
+                    11 => (*rng.pick(&["regs", "vregs", "mregs", "mvregs", "dump", "sp", "ip"])).to_string(),
+                    _ => format!("get:{t}"),
+                };
+                ops.push(op);
+            }
+            ops.push("dump".into());
+            emit(format!("regs {} {valid} {}", CTXS[ci], ops.join(" ")));
+        }
+    }
+
+    fn exec(&self, case: &str) -> ImplResult {
+        let Some(c) = parse_case(case) else {
+            return ImplResult { out: "bad-op".into(), ..Default::default() };
+        };
+        match dispatch!(c.ctx.as_str(), run(&c)) {
+            Some(r) => r,
+            None => ImplResult { out: "bad-op".into(), ..Default::default() },
+        }
+    }
+
+    fn shrink(&self, case: &str, still_fails: &dyn Fn(&str) -> bool) -> String {
+        let Some(mut c) = parse_case(case) else { return case.to_string() };
+        let mut progress = true;
+        while progress {
+            progress = false;
+            // drop blocks of ops, then single ops
+            let mut step = (c.ops.len() / 2).max(1);
+            loop {
+                let mut i = 0;
+                while c.ops.len() > 1 && i < c.ops.len() {
+                    let mut d = c.clone();
+                    let end = (i + step).min(d.ops.len());
+                    d.ops.drain(i..end);
+                    if !d.ops.is_empty() && still_fails(&render_case(&d)) {
+                        c = d;
+                        progress = true;
+                    } else {
+                        i += step;
+                    }
+                }
+                if step == 1 {
+                    break;
+                }
+                step /= 2;
+            }
+            if let Some(s) = c.valid.clone() {
+                let mut i = 0;
+                let mut s = s;
+                while i < s.len() {
+                    let mut t = s.clone();
+                    t.remove(i);
+                    let mut d = c.clone();
+                    d.valid = Some(t.clone());
+                    if still_fails(&render_case(&d)) {
+                        s = t;
+                        c = d;
+                        progress = true;
+                    } else {
+                        i += 1;
+                    }
+                }
+            }
+        }
+        render_case(&c)
     }
 }
